@@ -4,6 +4,7 @@
 -/
 import PgmVerif.Props.C11
 import PgmVerif.Model.PDAG
+import PgmVerif.Props.C08
 namespace PgmVerif
 open Relation
 
@@ -58,6 +59,119 @@ theorem C12_cpdag_directed_sound (g : DG) (e : Var × Var) (he : e ∈ (cpdagSpe
       rw [← hf]
       exact (List.all_eq_true.mp hall) h hm
     · cases hf
+
+/-- **a true edge is never removed**: adjacent nodes of the ground-truth DAG are d-connected given EVERY
+    conditioning set that contains neither of them (the edge itself is an active trail).  Hence a skeleton
+    search that deletes an edge only after its d-separation oracle reported independence — every variant
+    (orig / stable / parallel), every visiting order, every max_cond_vars — returns a supergraph of the true
+    skeleton. -/
+theorem C12_adjacent_never_separated (g : DG) (hg : g.WFG) (hac : Acyclic g.edges) (u v : Var)
+    (hadj : (u, v) ∈ g.edges ∨ (v, u) ∈ g.edges) (obs : List Var) (hu : u ∉ obs) (hv : v ∉ obs) :
+    g.isDconnected u v obs = true := by
+  have hun : u ∈ g.nodes := by
+    rcases hadj with h | h
+    · exact (hg _ h).1
+    · exact (hg _ h).2
+  have hreach : ∃ d, (v, d) ∈ g.reach obs u := by
+    rcases hadj with h | h
+    · refine ⟨false, (C08_reach_iff_active_trail g hg hac obs u hun hu v false).mpr ⟨[v, u], rfl, rfl, ?_, ?_⟩⟩
+      · exact Or.inl h
+      · exact Or.inr ⟨rfl, h⟩
+    · refine ⟨true, (C08_reach_iff_active_trail g hg hac obs u hun hu v true).mpr ⟨[v, u], rfl, rfl, ?_, ?_⟩⟩
+      · exact Or.inr h
+      · exact Or.inl ⟨rfl, h⟩
+  obtain ⟨d, hd⟩ := hreach
+  unfold DG.isDconnected DG.activeNodes
+  rw [List.contains_iff_mem, List.mem_eraseDups, List.mem_filter]
+  refine ⟨List.mem_map.mpr ⟨(v, d), hd, rfl⟩, ?_⟩
+  simpa using hv
+
+/-- an ancestor-or-self of a set reaches a member of the set along edges -/
+theorem anc_reaches (g : DG) (zs : List Var) (n : Var) (h : Gen g.parents zs n) :
+    ∃ z ∈ zs, n = z ∨ TransGen (Rel g.edges) n z := by
+  induction h with
+  | @base x hb => exact ⟨x, hb, Or.inl rfl⟩
+  | @step x y _ hxy ih =>
+    obtain ⟨z, hz, h⟩ := ih
+    have hedge : Rel g.edges x y := (g.mem_parents x y).mp hxy
+    rcases h with rfl | h
+    · exact ⟨y, hz, Or.inr (TransGen.single hedge)⟩
+    · exact ⟨z, hz, Or.inr (TransGen.head hedge h)⟩
+
+/-- no descendant of `u` is an ancestor-or-self of a parent of `u` -/
+theorem desc_not_anc_parents (g : DG) (hg : g.WFG) (hac : Acyclic g.edges) (u n : Var)
+    (hdesc : TransGen (Rel g.edges) u n) (hn : n ∈ g.ancestorsOf (g.parents u)) : False := by
+  have hz : ∀ z ∈ g.parents u, z ∈ g.nodes := fun z hz => (hg _ ((g.mem_parents z u).mp hz)).1
+  obtain ⟨p, hp, h⟩ := anc_reaches g (g.parents u) n ((C08_ancestors_exact g hg (g.parents u) hz n).mp hn)
+  have hpu : Rel g.edges p u := (g.mem_parents p u).mp hp
+  rcases h with rfl | h
+  · exact hac u (TransGen.tail hdesc hpu)
+  · exact hac u (TransGen.tail (TransGen.trans hdesc h) hpu)
+
+/-- **the parents of a node separate it from every non-descendant**: conditioning on pa(u), the traversal from
+    `u` only ever reaches `u`, its (observed) parents, and descendants of `u` entered along an arrow -/
+theorem C12_parents_separate (g : DG) (hg : g.WFG) (hac : Acyclic g.edges) (u v : Var) (hu : u ∈ g.nodes)
+    (hne : v ≠ u) (hnd : ¬ TransGen (Rel g.edges) u v) : g.isDconnected u v (g.parents u) = false := by
+  have hinv : ∀ s, Gen (g.trailNext (g.parents u) (g.ancestorsOf (g.parents u))) [(u, true)] s →
+      s = (u, true) ∨ (s.2 = true ∧ s.1 ∈ g.parents u) ∨ (s.2 = false ∧ TransGen (Rel g.edges) u s.1) := by
+    intro s hs
+    induction hs with
+    | @base x hb => exact Or.inl (List.mem_singleton.mp hb)
+    | @step x y _ hxy ih =>
+      obtain ⟨n, d⟩ := y
+      have hm := (mem_trailNext g (g.parents u) (g.ancestorsOf (g.parents u)) n d x).mp hxy
+      rcases ih with h | ⟨h1, h2⟩ | ⟨h1, h2⟩
+      · -- from the start state
+        have hn : n = u := congrArg Prod.fst h
+        have hd : d = true := congrArg Prod.snd h
+        subst hn; subst hd
+        rcases hm with ⟨_, _, h3⟩ | ⟨h3, _⟩
+        · rcases h3 with ⟨hx2, hE⟩ | ⟨hx2, hE⟩
+          · exact Or.inr (Or.inl ⟨hx2, (g.mem_parents x.1 n).mpr hE⟩)
+          · exact Or.inr (Or.inr ⟨hx2, TransGen.single hE⟩)
+        · cases h3
+      · -- from an observed parent: blocked
+        simp only at h1 h2
+        rcases hm with ⟨_, hno, _⟩ | ⟨h3, _⟩
+        · exact absurd h2 hno
+        · rw [h1] at h3; cases h3
+      · -- from a descendant entered along an arrow
+        simp only at h1 h2
+        rcases hm with ⟨h3, _⟩ | ⟨_, h3⟩
+        · rw [h1] at h3; cases h3
+        · rcases h3 with ⟨_, hx2, hE⟩ | ⟨hanc, _, _⟩
+          · exact Or.inr (Or.inr ⟨hx2, TransGen.tail h2 hE⟩)
+          · exact absurd hanc (fun h' => desc_not_anc_parents g hg hac u n h2 h')
+  cases hcon : g.isDconnected u v (g.parents u) with
+  | false => rfl
+  | true =>
+    exfalso
+    unfold DG.isDconnected DG.activeNodes at hcon
+    rw [List.contains_iff_mem, List.mem_eraseDups, List.mem_filter] at hcon
+    obtain ⟨hmem, hobs⟩ := hcon
+    obtain ⟨s, hs, hsv⟩ := List.mem_map.mp hmem
+    have hgen := (C08_reach_exact g hg (g.parents u) u hu s).mp hs
+    rcases hinv s hgen with h | ⟨_, h2⟩ | ⟨_, h2⟩
+    · exact hne (by rw [← hsv, h])
+    · rw [hsv] at h2
+      simp only [Bool.not_eq_true', List.contains_eq_mem, decide_eq_false_iff_not] at hobs
+      exact hobs h2
+    · rw [hsv] at h2; exact hnd h2
+
+/-- **skeleton characterisation**: two distinct nodes are either joined by an edge — then no conditioning set
+    separates them (`C12_adjacent_never_separated`) — or the parent set of one of them separates them.  Both
+    parent sets survive in the adjacency sets of the level-wise search (true edges are never removed), so the
+    search finds a separating set for exactly the non-adjacent pairs. -/
+theorem C12_nonadjacent_separable (g : DG) (hg : g.WFG) (hac : Acyclic g.edges) (u v : Var)
+    (hu : u ∈ g.nodes) (hv : v ∈ g.nodes) (hne : u ≠ v) :
+    g.isDconnected u v (g.parents u) = false ∨ g.isDconnected v u (g.parents v) = false := by
+  by_cases h : TransGen (Rel g.edges) u v
+  · right
+    apply C12_parents_separate g hg hac v u hv hne
+    intro h'
+    exact hac u (TransGen.trans h h')
+  · left
+    exact C12_parents_separate g hg hac u v hu (Ne.symm hne) h
 
 example : (DG.mk [0, 1, 2] [(0, 2), (1, 2)]).WFG := by
   intro e he
